@@ -372,15 +372,15 @@ Proof.
 Qed.
 
 (* ---------- codec ---------- *)
-(* what the round trip needs (weaker than wf: the count only has to be in range and to
-   be 0 only for an all-zero array) *)
+(* what the round trip needs: the reader recounts the array and rejects a stored count that is
+   not the population count, so (unlike wf) this is stated with the word-wise popcount the
+   code computes *)
 Record codec_ok (f : bloom) : Prop := mkCodecOk {
   co_nh    : 1 <= bf_nh f <= 32767;
   co_seed  : bf_seed f < 2 ^ 64;
   co_len   : 0 < N.of_nat (length (bf_words f)) < 2 ^ 31;
   co_words : words_ok (bf_words f);
-  co_used  : bf_used f <= bf_capacity f;
-  co_empty : bf_used f = 0 -> Forall (fun w => w = 0) (bf_words f)
+  co_used  : bf_used f = popcount_words (bf_words f)
 }.
 
 Lemma count_zero_words ws : words_ok ws -> count_bits ws = 0 -> Forall (fun w => w = 0) ws.
@@ -394,8 +394,12 @@ Qed.
 
 Lemma wf_codec_ok f : wf f -> codec_ok f.
 Proof.
-  intros Hwf. pose proof (wf_used_le f Hwf). destruct Hwf as [Hnh Hseed Hlen Hws Hu].
-  constructor; auto. intros H0. apply count_zero_words; auto. lia.
+  intros [Hnh Hseed Hlen Hws Hu]. constructor; auto. rewrite Hu. symmetry. apply popcount_words_count; auto.
+Qed.
+
+Lemma codec_ok_wf f : codec_ok f -> wf f.
+Proof.
+  intros [Hnh Hseed Hlen Hws Hu]. constructor; auto. rewrite Hu. apply popcount_words_count; auto.
 Qed.
 
 Lemma read_words_flat ws tail : words_ok ws ->
@@ -422,7 +426,10 @@ Proof. induction 1 as [|w ws -> _ IH]; cbn; [reflexivity|]. f_equal. exact IH. Q
 
 Theorem roundtrip f : codec_ok f -> bf_deserialize (bf_serialize f) = Ok f.
 Proof.
-  intros [Hnh Hseed Hlen Hws Hu He]. pose proof gen_codec_facts as (G1 & G2 & G3).
+  intros Hco. pose proof (wf_used_le f (codec_ok_wf f Hco)) as Hu.
+  assert (He : bf_used f = 0 -> Forall (fun w => w = 0) (bf_words f)).
+  { intros H0. destruct (codec_ok_wf f Hco) as [_ _ _ Hws Hc]. apply count_zero_words; auto. lia. }
+  destruct Hco as [Hnh Hseed Hlen Hws Hpc]. pose proof gen_codec_facts as (G1 & G2 & G3).
   destruct f as [seed nh used ws]. cbn [bf_nh bf_seed bf_used bf_words] in *.
   unfold bf_capacity in Hu. cbn [bf_words] in Hu.
   unfold bf_serialize, bf_is_empty. cbn [bf_nh bf_seed bf_used bf_words].
@@ -431,7 +438,7 @@ Proof.
   set (tail := if e then [] else le_bytes 8 used ++ flat_map (le_bytes 8) ws).
   set (pre := zN (if e then Gen.GenCodec.FAMILY_BLOOMFILTER_MIN_PRE_LONGS else Gen.GenCodec.FAMILY_BLOOMFILTER_MAX_PRE_LONGS)).
   set (flags := if e then zN Gen.GenBloom.EMPTY_FLAG_MASK else 0).
-  unfold bf_deserialize.
+  unfold bf_deserialize, bf_parse_header.
   set (bs := [pre; zN Gen.GenBloom.SERIAL_VERSION; zN Gen.GenCodec.FAMILY_BLOOMFILTER_ID; flags] ++
              le_bytes 2 nh ++ le_bytes 2 0 ++ le_bytes 8 seed ++ le_bytes 4 len ++ le_bytes 4 0 ++ tail).
   assert (Hlenbs : length bs = (24 + length tail)%nat).
@@ -454,9 +461,9 @@ Proof.
   rewrite (N.mod_small nh) by lia. rewrite (N.mod_small seed) by lia. rewrite (N.mod_small len) by lia.
   replace ((nh =? 0) || (32767 <? nh)) with false by lia.
   replace ((len =? 0) || (2147483648 <=? len)) with false by lia.
-  unfold flags, tail. destruct e eqn:Ee; subst e.
+  cbn [obind]. cbv beta iota. unfold flags, tail. destruct e eqn:Ee; subst e.
   - rewrite N.land_diag. replace (zN Gen.GenBloom.EMPTY_FLAG_MASK =? 0) with false by lia. cbn [negb].
-    assert (used = 0) by lia. subst used. unfold len. rewrite Nat2N.id.
+    assert (H0 : used = 0) by lia. specialize (He H0). rewrite H0. unfold len. rewrite Nat2N.id.
     rewrite <- zeros_repeat by auto. reflexivity.
   - rewrite N.land_0_l. cbn [negb N.eqb].
     change (read_u64 (le_bytes 8 used ++ flat_map (le_bytes 8) ws))
@@ -468,9 +475,8 @@ Proof.
     rewrite flat_le8_length. replace (N.of_nat (8 * length ws) <? 8 * len) with false by (unfold len; lia).
     unfold len. rewrite Nat2N.id.
     rewrite <- (app_nil_r (flat_map (le_bytes 8) ws)), read_words_flat by auto. cbn [obind].
-    rewrite G3. replace (used =? 2 ^ 64 - 1) with false by lia.
-    replace (N.of_nat (length ws) <? div_ceil used 64) with false; [reflexivity|].
-    unfold div_ceil. fold len. destruct (used mod 64 =? 0) eqn:Em; lia.
+    cbv zeta. rewrite <- Hpc. replace (used =? used) with true by (symmetry; apply N.eqb_refl).
+    cbn [negb]. rewrite andb_false_r. reflexivity.
 Qed.
 
 
